@@ -222,16 +222,66 @@ def _fallback(args):
     return (name, "unknown", 0.0, "none")
 
 
+CACHE_DIR = os.path.join(os.path.dirname(os.path.dirname(os.path.abspath(__file__))), ".cache", "smt")
+ENGINE_VERSION = "inst-3"  # bump when instantiation / lemma set / solving strategy changes
+
+
+def _cache_key(smt2, expect, raw):
+    import hashlib
+    from . import fplemmas, inst
+    h = hashlib.sha256()
+    h.update(ENGINE_VERSION.encode())
+    for mod in (fplemmas, inst):
+        h.update(open(mod.__file__, "rb").read())
+    h.update(expect.encode())
+    h.update(b"raw" if raw else b"inst")
+    h.update(smt2.encode())
+    return h.hexdigest()
+
+
+def _cache_get(key):
+    path = os.path.join(CACHE_DIR, key + ".json")
+    if os.path.exists(path):
+        try:
+            import json
+            return json.load(open(path))
+        except Exception:
+            return None
+    return None
+
+
+def _cache_put(key, value):
+    import json
+    os.makedirs(CACHE_DIR, exist_ok=True)
+    tmp = os.path.join(CACHE_DIR, key + f".{os.getpid()}.tmp")
+    with open(tmp, "w") as f:
+        json.dump(value, f)
+    os.replace(tmp, os.path.join(CACHE_DIR, key + ".json"))
+
+
 def discharge(obligations, timeout_s=20, jobs=None, fallback=True, opts=None):
-    """Return list[Result] in the order of `obligations`."""
+    """Return list[Result] in the order of `obligations`.
+
+    Identical solver queries (same SMT-LIB text, same engine) are memoised under .cache/smt: the VCs
+    themselves are regenerated from the current source on every run."""
     jobs = jobs or min(16, os.cpu_count() or 4)
     tasks = []
     smt2s = {}
+    keys = {}
+    cached = {}
+    use_cache = not os.environ.get("VT_NO_CACHE")
     for ob in obligations:
         s2 = to_smt2(ob)
         smt2s[ob.name] = s2
+        keys[ob.name] = _cache_key(s2, ob.expect, getattr(ob, "raw", False))
+        hit = _cache_get(keys[ob.name]) if use_cache else None
+        if hit is not None:
+            cached[ob.name] = hit
+            continue
         tasks.append((ob.name, s2, int(timeout_s * 1000), ob.expect, ob.inputs, {**dict(opts or {}), **({'raw': True} if getattr(ob, 'raw', False) else {})}))
     results = {}
+    for name, hit in cached.items():
+        results[name] = (hit["r"], hit["dt"], hit.get("model"), hit.get("reason", ""), hit["backend"] + " [memoised]")
     if tasks:
         ctxm = mp.get_context("fork")
         with ctxm.Pool(min(jobs, len(tasks))) as pool:
@@ -246,6 +296,16 @@ def discharge(obligations, timeout_s=20, jobs=None, fallback=True, opts=None):
                 if r in ("sat", "unsat"):
                     old = results[name]
                     results[name] = (r, old[1] + dt, None, "", label)
+    if use_cache:
+        for ob in obligations:
+            if ob.name in cached:
+                continue
+            r, dt, model, reason, backend = results[ob.name]
+            if r in ("sat", "unsat", "sat-candidate"):
+                try:
+                    _cache_put(keys[ob.name], {"r": r, "dt": dt, "model": model, "reason": reason, "backend": backend})
+                except Exception:
+                    pass
     out = []
     for ob in obligations:
         r, dt, model, reason, backend = results[ob.name]
